@@ -154,6 +154,13 @@ def HopLen : Nat := 12
 def hbhClass : Nat := 200
 def e2eClass : Nat := 201
 
+/-- path type identifiers and `epicHdrLen()`: the EPIC path type carries 16 extra bytes (packet
+id, PHVF, LHVF) in front of the SCION path; the SCMP pointers account for them. This model
+handles the SCION path type only (`parse` answers `.other` otherwise), where the term is 0. -/
+def scionPathType : Nat := 1
+def epicPathType : Nat := 3
+def epicHdrLen (pathType : Nat) : Nat := if pathType = epicPathType then 16 else 0
+
 /-- `AddrType.Length` -/
 def addrLen (t : Nat) : Nat := 4 * (1 + t % 4)
 
